@@ -30,6 +30,44 @@ class PrivateError(Exception):
     pass
 
 
+# world records the sanity limit refers to (pinned copy of the reference tree's table; lookup logic is the check's own:
+# gender in any letter case, anything else -> the better of the two)
+RECORDS = {
+    'm': dict(HJ=2.45, LJ=8.95, TJ=18.29, PV=6.16, HT=86.74, DT=74.08, WT=24.57, SP=23.12, JT=104.80),
+    'f': dict(HJ=2.09, LJ=7.52, TJ=15.50, PV=5.06, HT=82.98, DT=76.80, WT=22.50, SP=22.63, JT=72.28),
+}
+RECORDS['all'] = {k: max(RECORDS['m'][k], RECORDS['f'][k]) for k in RECORDS['m']}
+
+
+_OWN = [
+    # only the spellings the library documents a distance estimate for (tests/test_utils.py: test_get_distance)
+    (re.compile(r'^(\d+)(?:m|mH|H|h|W|w|SC|sc)?$'), lambda m: int(m.group(1))),
+    (re.compile(r'^(\d+(?:\.\d+)?)(?:K|k|KW|kW|Kw|kw)$'), lambda m: int(1000 * float(m.group(1)))),
+    (re.compile(r'^(\d+(?:\.\d+)?)M$'), lambda m: int(1609 * float(m.group(1)))),
+    (re.compile(r'^(\d{1,2})[xX](\d+)[hH]?$'), lambda m: int(m.group(1)) * int(m.group(2))),
+    (re.compile(r'^MAR$'), lambda m: 42195),
+    (re.compile(r'^HM$'), lambda m: 21098),
+    (re.compile(r'^MILE$'), lambda m: 1609),
+]
+
+
+def own_distance(event):
+    """Metres of the customary spellings, computed by the check (None: not one of them - the library's estimate is
+    used then, which C10 examines)."""
+    if not event.isascii():
+        return None
+    for pat, f in _OWN:
+        m = pat.match(event)
+        if m:
+            return f(m)
+    return None
+
+
+def record_for(event, gender):
+    g = gender.lower() if isinstance(gender, str) else 'all'
+    return RECORDS.get(g, RECORDS['all']).get(event.upper())
+
+
 COMMON = ['60', '100', '200', '400', '800', '1500', '3000', '5000', '10000', '110H', '100H', '400H', '3000SC', '2000SC',
           '60H', '300', '600', '1000', '150', 'MILE', '2MILE', '5K', '10K', 'HM', 'MAR', 'XC', '5M', '10M', '20KW', '3000W',
           '3KW', '4x100', '4x400', '4x200', '4x800', '4x1500', '3x800', '4xRELAY', '6xSDMR', '4xDMR',
@@ -111,8 +149,10 @@ def examine(case):
         return out          # documented: an empty XC entry is returned as is
     d = None
     if fam == 'timed':
-        dr = call(athlib.get_distance, event)
-        d = dr[1] if dr[0] == 'ret' else None
+        d = own_distance(event)
+        if d is None:
+            dr = call(athlib.get_distance, event)
+            d = dr[1] if dr[0] == 'ret' else None
         m = _TIMED_SHAPE.match(res)
         if not m:
             out.append(V('timed-shape', ['shape', 'timed', 'not-h:mm:ss'], case, res))
@@ -138,7 +178,7 @@ def examine(case):
         if not re.match(r'^\d+\.\d\d$', res):
             out.append(V('field-shape', ['shape', 'field', 'not-2-decimals'], case, res))
         else:
-            rec = mod('utils').field_event_record(event, gender)
+            rec = record_for(event, gender)
             if rec and float(res) > rec * 1.2 + 1e-9:
                 out.append(V('field-plausible', ['field', 'beyond-record'], case, [res, rec]))
     elif fam == 'multi':
@@ -258,7 +298,12 @@ def plausible_text(event, fam, draw):
         return render_duration(cs, draw)
     if fam == 'field':
         g = re.match(r'^[A-Za-z]+', event).group(0).upper()
-        rec = mod('utils').field_event_record(g, 'all') or 20.0
+        rec = RECORDS['all'].get(g) or 20.0
+        if draw(4) == 0 and g in RECORDS['f']:
+            # between 1.2 x one gender's record and 1.2 x the other's: only the right table refuses it
+            lo_, hi_ = sorted((RECORDS['f'][g], RECORDS['m'][g]))
+            c = int(lo_ * 120) + draw(max(1, int(hi_ * 120) - int(lo_ * 120) + 3)) - 1
+            return '%d.%02d' % (c // 100, c % 100)
         c = draw(int(rec * 150) + 1)
         return ['%d.%02d', '%d,%02d', '%d.%02d0', '%d:%02d'][min(draw(8), 3) if draw(3) == 0 else 0] % (c // 100, c % 100) \
             if draw(6) else str(c // 100)
